@@ -384,6 +384,48 @@ T8 = {
                                                "C19 overdue: delay_until / defer_by / next_execution_time / retry state on Parameters and Job", ["C19"]),
     "C20-r8-endpoint-strip-trailing-slash": ("endpoint setting ending with a slash (or starting with several)", True, None, ["C20"]),
 }
+T9 = {
+    "C01-r9-redis-overdue-nack-then-handed-out": ("Redis NORMAL consumer, a message whose ttl ran out, met in the priority level polled last", False,
+                                                  "C01 histories: some enqueues carry a time-to-live (0.3 / 1 / 5 s)", ["C01"]),
+    "C02-r9-prepare-retry-drops-max-amount": ("retries >= 2 and two failures in a row", True, None, ["C02"]),
+    "C03-r9-amqp-delivered-map-dropped-at-hand-out": ("RabbitMQ, stop signal in the one-or-two-step window in which consume() has returned but the runner has not received the message", True, None, ["C03"]),
+    "C04-r9-type-value-errors-not-retried": ("an attempt failing with TypeError / ValueError while retries remain", True, None, ["C04"]),
+    "C05-r9-redis-requeue-due-fast-path-same-second": ("Redis requeue with a retry time less than a second ahead, no whole-second boundary in between", False,
+                                                       "C05 form `requeue`: the consumer puts a received message back with a retry time delta ahead", ["C05"]),
+    "C06-r9-prepare-retry-loses-delay-until": ("recurring job with retries, an iteration that was retried and finished sooner after its slot than the one before", True, None, ["C06"]),
+    "C07-r9-amqp-publish-clamps-priority": ("RabbitMQ and a routing key priority above 9", False, "C07 e2e: raw priorities 1 / 10 / 42 / 255 through the broker API", ["C07"]),
+    "C08-r9-basic-null-treated-as-absent": ("BasicConverter, payload carrying null for a declared parameter", True, None, ["C08"]),
+    "C09-r9-redis-take-holds-pause-lock": ("Redis, saturated worker, the slot frees while the poller is inside a take", True, None, ["C09"]),
+    "C10-r9-amqp-settle-pops-tag-after-call": (
+        "RabbitMQ, two queues, a message handed back at the limit and redelivered before basic_reject returns", False,
+        "RabbitMQ model: in the slow mode a settlement's write drains a few loop steps after the server acted (a redelivery it causes reaches "
+        "the consumer first)", ["C10"]),
+    "C11-r9-mem-scan-drops-foreign-on-expired": ("in-memory, foreign-topic messages ahead of an expired message in a shared queue", False,
+                                                 "C11: an already-expired message somewhere in the traffic", ["C11"]),
+    "C12-r9-amqp-paused-holds-after-ttl-check": (
+        "RabbitMQ, consumer paused with room in its prefetch window (two queues, tasks_limit >= 2), a message arriving live and expiring during the pause", False,
+        "new C12 sub-checks saturated-* (hand-over instant observed at consume()); writing them exposed D33 on the unchanged tree (Redis), "
+        "repaired in /repo af70cfb", ["C12"]),
+    "C13-r9-bookkeeping-skipped-on-store-failure": (
+        "result store failing with tasks_limit=1 (or on the execution that completes messages_limit)", False,
+        "C13 fault: running into the horizon with the fault while the fault-free run settled is a verdict (it was 'inconclusive')", ["C13"]),
+    "C14-r9-hand-back-second-reject-on-cancel": (
+        "Redis, worker over >= 2 queues with a message limit, the last counted execution ending while a hand-back's reject is in flight", False,
+        "new C14 sub-check limit-handback (workloads of C03 limit-multi; every unfinished message is in its queue exactly once)", ["C14", "C03"]),
+    "C15-r9-redis-lrem-before-push": ("Redis, an id enqueued again while its first entry is still waiting, other messages enqueued in between", False,
+                                      "C15 drain mode on Redis: re-enqueue of a waiting id (`again`)", ["C15"]),
+    "C16-r9-noaction-derives-from-exception": ("an actor that gives its eager response inside its own try / except Exception", False,
+                                               "scripted actors: `guard` (the eager call sits in a try / except Exception)", ["C16", "C02"]),
+    "C17-r9-redis-queue-delete-alias": ("Redis queue_delete with subscribers for the delete / flush signals", True, None, ["C17"]),
+    "C18-r9-asyncify-unwraps-before-coroutine-test": ("a provider that is an async callable made by a functools.wraps decorator around a sync function", False,
+                                                      "C18 providers behind an `offload` decorator", ["C18"]),
+    "C19-r9-backoff-fast-path-drops-min-floor": ("min_backoff > multiplier * 2**max_exponent and a retry number >= max_exponent", True, None, ["C19"]),
+    "C20-r9-split-request-status-read-early": (
+        "request split across packets with a consumer failure between the packets", False,
+        "C20 protocol: the health status may turn 503 between two chunks; an answer must tell the status in force when it was written. "
+        "(The committed check flagged the change through `status-for-other-request`, which would also have flagged a correct server that "
+        "reassembles split requests - an over-reach, narrowed.)", ["C20"]),
+}
 RETIRED = {"C10-r4-stop-event-at-mth-start", "C03-r6-health-stop-before-graceful-finish"}
 
 
@@ -396,6 +438,7 @@ def main() -> None:
     rows += [(n, 6, needs, first, st, checks) for n, (needs, first, st, checks) in T6.items()]
     rows += [(n, 7, needs, first, st, checks) for n, (needs, first, st, checks) in T7.items()]
     rows += [(n, 8, needs, first, st, checks) for n, (needs, first, st, checks) in T8.items()]
+    rows += [(n, 9, needs, first, st, checks) for n, (needs, first, st, checks) in T9.items()]
     for name, rnd, needs, first, strengthened, checks in rows:
         d = ROOT / "seeded" / name
         pid = name[:3]
